@@ -7,6 +7,7 @@
   tables are `regAll` of the function's trace.  Nothing else of the builder state is looked at.
 -/
 import XotModel.Lemmas.IdMapParseIds
+import XotModel.Lemmas.IdMapParseQName
 
 namespace XotModel
 namespace IdParse
@@ -356,13 +357,13 @@ theorem processingInstruction_env (b : Builder) (target : StrSpan) (content : Op
 
 /-! ### The token loop -/
 
-/-- One token: whatever result carries tables, they are the tables before after the token's calls. -/
-theorem step_trace (b : Builder) (t : Token) :
-    (∀ b', b.step t = .ok b' → b'.env = (b.env.regAll (b.stepRegs t)).1) ∧
-    (∀ e env', b.step t = .err e env' → env' = (b.env.regAll (b.stepRegs t)).1) := by
+/-- One arm (after `check_qname`). -/
+theorem stepCore_trace (b : Builder) (t : Token) :
+    (∀ b', b.stepCore t = .ok b' → b'.env = (b.env.regAll (b.stepRegsCore t)).1) ∧
+    (∀ e env', b.stepCore t = .err e env' → env' = (b.env.regAll (b.stepRegsCore t)).1) := by
   cases t with
   | «attribute» pfx loc value sp =>
-    simp only [Builder.step, Builder.stepRegs]
+    simp only [Builder.stepCore, Builder.stepRegsCore]
     split
     · exact prefix_trace b _ _ _
     · split
@@ -374,7 +375,7 @@ theorem step_trace (b : Builder) (t : Token) :
     exact ⟨h1, fun e env' h => absurd h (h2 e env')⟩
   | elementStart pfx loc sp =>
     refine ⟨fun b' h => ?_, fun e env' h => by cases h⟩
-    simp only [Builder.step, Step.ok.injEq] at h
+    simp only [Builder.stepCore, Step.ok.injEq] at h
     rw [← h]; rfl
   | elementEnd ee sp =>
     cases ee with
@@ -382,7 +383,7 @@ theorem step_trace (b : Builder) (t : Token) :
     | close pfx loc => exact closeElement_trace b pfx loc sp
     | empty =>
       obtain ⟨o1, o2⟩ := openElement_trace b
-      simp only [Builder.step, Builder.stepRegs]
+      simp only [Builder.stepCore, Builder.stepRegsCore]
       cases ho : b.openElement with
       | panic => exact ⟨fun b' h => (by cases h), fun e env' h => by cases h⟩
       | err e env =>
@@ -395,10 +396,10 @@ theorem step_trace (b : Builder) (t : Token) :
         rw [c1 b' h]; exact o1 b1 ho
   | comment t sp =>
     refine ⟨fun b' h => ?_, fun e env' h => by cases h⟩
-    simp only [Builder.step, Step.ok.injEq] at h
+    simp only [Builder.stepCore, Step.ok.injEq] at h
     rw [← h]; rfl
   | pi target content sp =>
-    simp only [Builder.step, Builder.stepRegs]
+    simp only [Builder.stepCore, Builder.stepRegsCore]
     split
     · refine ⟨fun b' h => (by cases h), fun e' env' h => ?_⟩
       simp only [Step.err.injEq] at h
@@ -407,7 +408,7 @@ theorem step_trace (b : Builder) (t : Token) :
       simp only [Step.ok.injEq] at h
       rw [← h, processingInstruction_env]; rfl
   | declaration version enc sa sp =>
-    simp only [Builder.step, Builder.stepRegs]
+    simp only [Builder.stepCore, Builder.stepRegsCore]
     split
     · refine ⟨fun b' h => (by cases h), fun e' env' h => ?_⟩
       simp only [Step.err.injEq] at h
@@ -417,20 +418,36 @@ theorem step_trace (b : Builder) (t : Token) :
       rw [← h]; rfl
   | dtdStart sp =>
     refine ⟨fun b' h => (by cases h), fun e' env' h => ?_⟩
-    simp only [Builder.step, Step.err.injEq] at h
+    simp only [Builder.stepCore, Step.err.injEq] at h
     exact h.2.symm
   | dtdEnd sp =>
     refine ⟨fun b' h => (by cases h), fun e' env' h => ?_⟩
-    simp only [Builder.step, Step.err.injEq] at h
+    simp only [Builder.stepCore, Step.err.injEq] at h
     exact h.2.symm
   | emptyDtd sp =>
     refine ⟨fun b' h => (by cases h), fun e' env' h => ?_⟩
-    simp only [Builder.step, Step.err.injEq] at h
+    simp only [Builder.stepCore, Step.err.injEq] at h
     exact h.2.symm
   | entityDecl sp =>
     refine ⟨fun b' h => (by cases h), fun e' env' h => ?_⟩
-    simp only [Builder.step, Step.err.injEq] at h
+    simp only [Builder.stepCore, Step.err.injEq] at h
     exact h.2.symm
+
+/-- One token: whatever result carries tables, they are the tables before after the token's calls
+    (a name refused by `check_qname` registers nothing and leaves the tables alone). -/
+theorem step_trace (b : Builder) (t : Token) :
+    (∀ b', b.step t = .ok b' → b'.env = (b.env.regAll (b.stepRegs t)).1) ∧
+    (∀ e env', b.step t = .err e env' → env' = (b.env.regAll (b.stepRegs t)).1) := by
+  cases hq : t.prefixOk with
+  | true =>
+    rw [b.step_eq_core hq, b.stepRegs_eq_core hq]
+    exact stepCore_trace b t
+  | false =>
+    obtain ⟨p, l, _, _, he⟩ := b.step_refused hq
+    rw [he, b.stepRegs_refused hq]
+    refine ⟨fun b' h => (by cases h), fun e env' h => ?_⟩
+    simp only [Step.err.injEq] at h
+    rw [← h.2]; rfl
 
 theorem run_trace (ts : List Token) (lexErr : Option Nat) : ∀ (b : Builder),
     (∀ b', b.run ts lexErr = .ok b' → b'.env = (b.env.regAll (b.runRegs ts)).1) ∧
